@@ -28,6 +28,12 @@ byte-field objects are shared with the caller's configuration — and assigns th
 caller's list; `FinishedParams.success_params()` / `.empty()` allocate a new object and a new list per
 call (`default_factory`); `PduHolder.pdu = x` stores `x`; decoders return all-fresh object graphs;
 `PusTc.from_sp_header` ADOPTS and MODIFIES the caller's header (documented behaviour of that factory).
+Second round (read off HEAD 066f1b2): USLP `TransferFrame(header, tfdf, …)` keeps both caller objects, `set_frame_len_in_header()`
+assigns `frame_len` of the caller's `PrimaryHeader` (nothing for a truncated header), `TransferFrame.unpack` is all-new;
+`PusTm.from_composite_fields` / `Service1Tm.from_tm` ADOPT the given objects and write nothing; `Service1Tm(…)` without
+parameters allocates its own; the setters that reach the configuration through a PDU (`pdu.file_flag`, `pdu_header.<flag>`,
+`set_entity_ids`, `transaction_seq_num`) write the PDU's own copy — the last two by REPLACING references —, while
+`pdu.source_entity_id.value = v` writes the shared byte-field object.
 The variants `…Shared` describe the code before 840b2f2 / b7949db and exist only so that the
 separation theorems are visibly not vacuous.
 
